@@ -67,6 +67,13 @@ TraceAlterTTL ==
     /\ (IF Effect THEN AlterTTL ELSE NoEffect /\ UNCHANGED vars)
     /\ Consume
 
+\* the clearing of the marker before the first ALTER of a group
+TraceInvalidate ==
+    /\ Is("Put") /\ pc = "inval"
+    /\ Ev.key = G.key /\ Ev.val = ""
+    /\ (IF Effect THEN Invalidate ELSE NoEffect /\ UNCHANGED vars)
+    /\ Consume
+
 TracePut ==
     /\ Is("Put") /\ pc = "put"
     /\ Ev.key = G.key /\ Ev.val = Want(cfg, G)
@@ -82,7 +89,7 @@ TraceReturnOK == Is("ReturnOK") /\ pc = "done" /\ Consume /\ UNCHANGED vars
 
 TraceNext ==
     \/ TraceReset \/ TraceStart \/ TraceGet \/ SilentSkip \/ TraceAlterPolicy \/ TraceAlterSetting \/ TraceAlterTTL
-    \/ TracePut \/ TraceStop \/ TraceReturnOK
+    \/ TraceInvalidate \/ TracePut \/ TraceStop \/ TraceReturnOK
 
 TraceSpec == TraceInit /\ [][TraceNext]_tvars
 
